@@ -114,6 +114,11 @@ func (e *c11Exec) Check(o *mc.Outcome) []Viol {
 			vs = append(vs, Viol{"C11|cancelled-but-error-is-not-the-contexts", fmt.Sprintf("driver %s: context cancelled before the call returned; returned %q, which is not context.Canceled", e.d, e.Err)})
 		}
 	}
+	if (o.End() == "complete" || o.End() == "leak") && e.CancelSeen && e.Err == nil && !e.d.Simple && e.ActionsAfterCancel > 0 {
+		// the call went on writing / calling back after the cancellation was complete, so it was not finished then:
+		// it has to report the context's error, however much of the work it still did
+		vs = append(vs, Viol{"C11|cancelled-before-finishing-but-nil|" + e.d.Op, fmt.Sprintf("driver %s: %d writes / callbacks began after the context had been cancelled, and the call returned nil (output %q)", e.d, e.ActionsAfterCancel, short(e.Out))})
+	}
 	if o.End() == "complete" || o.End() == "leak" {
 		if e.CancelSeen && e.Err == nil && e.full != "" {
 			complete := sameBlocks(e.Out, e.full)
